@@ -101,8 +101,12 @@ pub fn run(sim: &Sim, prop: &str, tier: Tier) -> Outcome {
             Tier::Quick => 8,
             Tier::Thorough => 40,
         };
-        // swarm: most runs have few packets
-        let npk = if sim.chance(85) {
+        // swarm: most runs have few packets; rarely a long sequence of small ones
+        let long_seq = sim.draw(500) == 499;
+        let npk = if long_seq {
+            sim.probe("sequence_over_256_packets");
+            sim.pick(&[300u32, 257, 520])
+        } else if sim.chance(85) {
             1 + sim.draw(max_packets.min(8))
         } else {
             1 + sim.draw(max_packets)
@@ -123,7 +127,21 @@ pub fn run(sim: &Sim, prop: &str, tier: Tier) -> Outcome {
         let a = sim.u16_any();
         let b = sim.u16_any();
         for _ in 0..npk {
-            planned.push(gen_packet(sim, sizes, &[a, b]));
+            if long_seq {
+                let len = sim.pick(&[0usize, 1, 8, 9]);
+                planned.push(Packet {
+                    is_error: false,
+                    device_address: a,
+                    data: crate::gen::fill_pattern(0, planned.len() as u32, len),
+                });
+            } else if !planned.is_empty() && sim.chance(10) {
+                // the same packet again (identical consecutive packets are legal traffic)
+                let again = planned[planned.len() - 1].clone();
+                planned.push(again);
+                sim.count("identical_consecutive_packets");
+            } else {
+                planned.push(gen_packet(sim, sizes, &[a, b]));
+            }
         }
     }
     let npk = planned.len();
